@@ -855,6 +855,12 @@ func c03(c *Ctx) (*report.Result, error) {
 	}
 	res.RuleDoc["O3.14"] = "a confirmation is filed under the target it came from: every RoutedAck built by a sender's recvAck (both branches, both sender types) carries TargetShard = that sender's own targetShardID - an ack filed under another shard creates an entry that no real ack updates and pins the aggregated minimum for ever"
 	checkRoutedAckTarget(c, res, "O3.14")
+	res.RuleDoc["O3.15"] = "a re-established source stream keeps its ack channel: the receiver evicts its predecessor BEFORE it registers its own ack channel (same analysis as O8.3) - the eviction force-removes the shard's ack channel, so in the other order the new receiver deregisters itself and no acknowledgement ever reaches it"
+	if r8, err := Registry["C08"](c); err == nil && r8 != nil {
+		if n := importObligations(res, r8, "O3.15", func(o report.Obligation) bool { return o.Rule == "O8.3" && strings.Contains(o.Construct, "proxyStreamReceiver") }); n < 1 {
+			res.Undec("O3.15", "eviction-order obligations of O8.3", "", "none imported")
+		}
+	}
 	checkNoSwallowedErrors(c, res, "O3.8", []string{"proxy/proxy_streams.go"})
 	res.RuleDoc["O3.9"] = "relay loops pass every message on: in every loop that takes messages from a stream or channel and forwards them, no path from the take to the next take avoids every stream Send / channel send / Deliver*ToShardOwner (a forwarding loop that runs zero times, the wrong-kind edges of a type assertion and a return that ends the stream are not bypasses; the ack aggregator sendAck is the reviewed exception)"
 	checkRelayLoops(c, res, "O3.9", []string{"proxy/proxy_streams.go", "proxy/intra_proxy_router.go"}, 5)
